@@ -860,6 +860,15 @@ func ExtractAndSetTransactionCbor(
 	expectedBodies int,
 	expectedWitnesses int,
 ) error {
+	// Every transaction body is paired with the witness set at the same
+	// index, so a block with differing counts cannot be represented
+	if expectedBodies != expectedWitnesses {
+		return fmt.Errorf(
+			"block has %d transaction bodies but %d transaction witness sets",
+			expectedBodies,
+			expectedWitnesses,
+		)
+	}
 	blockCount, blockHeaderSize, blockIndefinite := cborArrayInfo(cborData)
 	if blockCount < 0 && !blockIndefinite {
 		return errors.New("failed to decode block array: invalid CBOR array")
